@@ -6,7 +6,7 @@
    (every cut the parsers make is at / \ . : ? or at an end). *)
 From Coq Require Import List NArith Bool.
 Import ListNotations.
-From TP Require Import Core Path Unix Win Utf8 Utf8Proofs C14Proofs C13Proofs.
+From TP Require Import Core Path Unix Win Utf8 Utf8Proofs C14Proofs C13Proofs C14Slices C14Win.
 
 Theorem C14_valid_iff : forall l : list N, utf8_valid l = true <-> Valid l.
 Proof. exact utf8_valid_iff. Qed.
@@ -46,7 +46,48 @@ Print Assumptions C14_unix_file_name_valid.
 Print Assumptions C14_unix_file_stem_valid.
 Print Assumptions C14_unix_extension_valid.
 Print Assumptions C14_unix_set_extension_valid.
-(* C14_slices_partial: that the remaining slices the model returns (every component, remainders, parent,
-   strip_prefix remainder; all Windows slices) start and end at such a cut is not proved operation by operation;
-   the harness checks std::str::from_utf8 on every returned &str, and the set_extension truncation point
-   (formerly a panic, D5) is covered by the C13 cases with multi-byte characters next to dots. *)
+(* "every string slice they hand out ... is valid UTF-8 cut on character boundaries", for the iterators and
+   the slices built from them (this was C14_slices_partial until C14Slices.v).  For the generic core parser
+   with ASCII separators -- Unix, and the Windows body -- and ANY schedule of front and back steps on a valid
+   UTF-8 window: every later window (what as_str / as_path of the partially consumed iterator shows) and
+   every normal name handed out is valid UTF-8; hence so are parent and the remainder of strip_prefix.
+   Every cut the parser makes is next to a separator or a ".", and no UTF-8 sequence has an ASCII byte
+   inside. *)
+Theorem C14_sched_valid : forall (is_sep : N -> bool) (norm : bool), is_sep 46 = false ->
+  (forall s, is_sep s = true -> s < 128) ->
+  forall (sched : list bool) (s : pstate * list N), Valid (snd s) ->
+  Forall (fun x : option comp * (pstate * list N) =>
+            Valid (snd (snd x)) /\ (forall n, fst x = Some (Normal n) -> Valid n))
+         (sched_run (next_front is_sep norm) (next_back is_sep norm) s sched).
+Proof. exact sched_Valid. Qed.
+Theorem C14_unix_sched_valid : forall (p : list N) (sched : list bool), Valid p ->
+  Forall (fun x : option comp * ustate =>
+            Valid (u_remaining (snd x)) /\ (forall n, fst x = Some (Normal n) -> Valid n))
+         (sched_run u_nextf u_nextb (u_init p) sched).
+Proof. exact u_sched_Valid. Qed.
+Theorem C14_unix_parent_valid : forall l r : list N, Valid l -> u_parent l = Some r -> Valid r.
+Proof. exact u_parent_Valid. Qed.
+Theorem C14_unix_strip_prefix_valid : forall l base r : list N, Valid l -> u_strip_prefix l base = Some r -> Valid r.
+Proof. exact u_strip_prefix_Valid. Qed.
+Theorem C14_windows_body_sched_valid : forall (norm : bool) (sched : list bool) (s : pstate * list N), Valid (snd s) ->
+  Forall (fun x : option comp * (pstate * list N) =>
+            Valid (snd (snd x)) /\ (forall n, fst x = Some (Normal n) -> Valid n))
+         (sched_run (next_front (wsep norm) norm) (next_back (wsep norm) norm) s sched).
+Proof. exact w_body_sched_Valid. Qed.
+Print Assumptions C14_windows_body_sched_valid.
+Print Assumptions C14_sched_valid.
+Print Assumptions C14_unix_sched_valid.
+Print Assumptions C14_unix_parent_valid.
+Print Assumptions C14_unix_strip_prefix_valid.
+(* the Windows iterator as a whole (C14Win.v): every alternative of the prefix grammar stops next to an ASCII
+   byte or at the end of the input, so the prefix slice of a valid input and what follows it are valid; with
+   the body theorem above, every window, every prefix and every normal name under any schedule is valid *)
+Theorem C14_windows_prefix_valid : forall (l raw : list N) (k : wprefix), prefix_component l = Some (raw, k) ->
+  Valid l -> Valid raw /\ Valid (skipn (length raw) l).
+Proof. exact prefix_component_Valid. Qed.
+Theorem C14_windows_sched_valid : forall (l : list N) (sched : list bool), Valid l ->
+  Forall (fun x : option wcomp * wstate => Valid (w_input (snd x)) /\ wout_ok (fst x))
+         (sched_run w_nextf w_nextb (w_init l) sched).
+Proof. exact w_init_sched_Valid. Qed.
+Print Assumptions C14_windows_prefix_valid.
+Print Assumptions C14_windows_sched_valid.
